@@ -1,6 +1,9 @@
 package main
 
 import (
+	"os/exec"
+	"context"
+	"bytes"
 	"encoding/json"
 	"flag"
 	"fmt"
@@ -253,6 +256,10 @@ func cmdCheck(args []string) {
 		}
 	}
 	failed = append(failed, v.deadReturns(obls)...)
+	// bounded stand-ins of the assumed contracts of functions outside the verifier's reach (reflection):
+	// run on the real code, labelled bounded, never counted as proved
+	bounded, bfail := runBounded(*repo, *verif, *prop, work)
+	failed = append(failed, bfail...)
 	for fn, rc := range retCover {
 		if rc[0] > 0 && rc[0] == rc[1] {
 			failed = append(failed, &Obligation{Name: fn + "/cover:no-return-reachable", Fn: fn, Kind: "cover", Result: "unsat",
@@ -347,6 +354,7 @@ func cmdCheck(args []string) {
 			"functions_under_contract": reports, "covers_checked": covers,
 			"suspended_by_known_findings": susp, "failed": failedNames,
 			"discharged_by_solver": bySolver, "slowest_ms": slowest, "slowest_obligation": slowestName,
+			"bounded_standins": bounded,
 			"per_obligation_timeout_ms": timeout, "all_solvers_cross_checked": all, "obligations_retried_with_3x_budget": retried,
 		},
 		"assumptions": assumptions,
@@ -399,6 +407,12 @@ func (v *Verifier) makeReplay(o *Obligation, repo string) *Replay {
 		out = out[:20000] + "\n...[truncated]"
 	}
 	r := &Replay{Obligation: o.Name, Function: o.Fn, Kind: o.Kind, Source: o.Src, Result: o.Result, Output: out, Trace: o.Trace, Goal: o.Goal.S, Outcome: "not-replayed"}
+	if o.Kind == "bounded" {
+		// a bounded stand-in failed: the test output shows the failing input on the real code
+		r.Outcome = "confirmed"
+		r.Note = "bounded stand-in (go test -overlay on the repository): the output above names the failing case"
+		return r
+	}
 	if o.Result != "sat" {
 		r.Note = "the solver returned no model (" + o.Result + "): the obligation is undischarged; no failing input found"
 		return r
@@ -440,4 +454,97 @@ func (v *Verifier) deadReturns(obls []*Obligation) []*Obligation {
 	}
 	sort.Slice(out, func(i, j int) bool { return out[i].Name < out[j].Name })
 	return out
+}
+
+type standin struct {
+	Test       string   `json:"test"`
+	Functions  []string `json:"functions"`
+	Properties []string `json:"properties"`
+}
+
+// runBounded runs the bounded stand-ins serving the property against the repository (go test with an
+// overlay: nothing is written into the repository). A failing stand-in is a violation of the assumed
+// contract of a function the proofs rely on.
+func runBounded(repo, verif, prop, work string) ([]map[string]interface{}, []*Obligation) {
+	var all []standin
+	b, err := os.ReadFile(filepath.Join(verif, "bounded", "standins.json"))
+	if err != nil {
+		return nil, nil
+	}
+	if json.Unmarshal(b, &all) != nil {
+		return nil, []*Obligation{{Name: "bounded/standins.json", Kind: "engine-error", Result: "error", Output: "cannot parse bounded/standins.json"}}
+	}
+	var sel []standin
+	for _, s := range all {
+		if hasProp(s.Properties, prop) {
+			sel = append(sel, s)
+		}
+	}
+	if len(sel) == 0 {
+		return nil, nil
+	}
+	files, _ := filepath.Glob(filepath.Join(verif, "bounded", "*_test.go"))
+	ov := map[string]map[string]string{"Replace": {}}
+	for _, f := range files {
+		ov["Replace"][filepath.Join(repo, "zz_"+filepath.Base(f))] = f
+	}
+	ob, _ := json.Marshal(ov)
+	ovFile := filepath.Join(work, "bounded_overlay.json")
+	os.WriteFile(ovFile, ob, 0644)
+	var names []string
+	for _, s := range sel {
+		names = append(names, s.Test)
+	}
+	ctx, cancel := context.WithTimeout(context.Background(), 5*time.Minute)
+	defer cancel()
+	cmd := exec.CommandContext(ctx, "go", "test", "-overlay", ovFile, "-vet=off", "-count=1", "-timeout", "240s", "-run", "^("+strings.Join(names, "|")+")$", "-v", ".")
+	cmd.Dir = repo
+	cmd.Env = append(os.Environ(), "GOFLAGS=-mod=mod", "GOPROXY=off", "GOSUMDB=off", "GOTOOLCHAIN=local")
+	var out bytes.Buffer
+	cmd.Stdout, cmd.Stderr = &out, &out
+	cmd.Run()
+	text := out.String()
+	var res []map[string]interface{}
+	var failed []*Obligation
+	for _, s := range sel {
+		r := map[string]interface{}{"test": s.Test, "functions": s.Functions, "label": "bounded stand-in on the real code: NOT counted as proved"}
+		status := "not-run"
+		if strings.Contains(text, "--- PASS: "+s.Test+" ") {
+			status = "pass"
+		} else if strings.Contains(text, "--- FAIL: "+s.Test+" ") {
+			status = "fail"
+		}
+		r["result"] = status
+		for _, l := range strings.Split(text, "\n") {
+			if i := strings.Index(l, "BOUNDED function="); i >= 0 && strings.Contains(text, s.Test) {
+				// the BOUNDED line of this test follows its RUN line: match by position
+				_ = i
+			}
+		}
+		// the BOUNDED line printed by the test
+		if i := strings.Index(text, "=== RUN   "+s.Test+"\n"); i >= 0 {
+			seg := text[i:]
+			if j := strings.Index(seg, "--- "); j >= 0 {
+				seg = seg[:j]
+			}
+			if k := strings.Index(seg, "BOUNDED "); k >= 0 {
+				line := seg[k:]
+				if e := strings.Index(line, "\n"); e >= 0 {
+					line = line[:e]
+				}
+				r["reported"] = line
+				var n int
+				if c := strings.Index(line, "cases="); c >= 0 {
+					fmt.Sscanf(line[c:], "cases=%d", &n)
+				}
+				r["cases"] = n
+			}
+		}
+		res = append(res, r)
+		if status != "pass" {
+			failed = append(failed, &Obligation{Name: "bounded/" + s.Test, Fn: strings.Join(s.Functions, ","), Kind: "bounded", Result: status,
+				Output: "bounded stand-in of the assumed contract of " + strings.Join(s.Functions, ", ") + " fails on the real code:\n" + firstLines(text, 60)})
+		}
+	}
+	return res, failed
 }
